@@ -64,7 +64,7 @@ PROPS = {
         "gen": ["facts", "formulas"],
         "rule": "alloc: allocations with >= 2 reporters paid; divvy: reporter with 0 or >= 2 own token origins and non-zero commission rate inside [0,1]; calc: every case; distinct = distinct input lines",
         "level_text": "Theorems over all rewards, reporter sets, powers, commission rates and origin lists: AllocateRewards' amounts sum to the reward exactly; DivvyingTips credits = pro-rata shares of the net reward + the commission exactly once (one, several or no own origins); no credit is negative for rates in [0,1]; counterexample theorems for the recorded finding (rates outside [0,1] accepted at creation) and for the pre-fix double commission. LegacyDec is modelled exactly (banker's rounding) and differential-tested through CalculateRewardAmount; the real AllocateRewards (mock sinks) and DivvyingTips (real store) are run on generated cases and compared with the Lean driver; an exact-rational proportionality monitor runs on the implementation's outputs.",
-        "level_note": "Trusted: Lean kernel; hand-written models Chain/Rewards.lean, Base/Dec.lean; the per-credit 10^-18 rounding bound is checked by the monitor on every generated case but not yet a theorem (partial); TBR selection in SetAggregatedReport is covered by the chain-mode properties (C03/C04), not here.",
+        "level_note": "Trusted: Lean kernel; hand-written models Chain/Rewards.lean, Base/Dec.lean; the per-credit 10^-18 rounding bound is theorem C09_divvy_sum (proof module imports Mathlib.Tactic.Linarith for nlinarith); TBR selection in SetAggregatedReport is covered by the chain-mode properties (C03/C04), not here.",
         "trusted": ["models Chain/Rewards.lean, Base/Dec.lean written by hand", "mock reporter/bank keepers capture AllocateTip calls in the alloc family"],
     },
     "C01": {
@@ -112,5 +112,14 @@ PROPS = {
         "level_note": "Partial: whole-path totality of Pre/Begin/EndBlock is NOT a theorem (cosmos-sdk modules and most keeper code are exercised, not modelled); environment assumptions: honest validators' vote extensions (produced by the real ExtendVoteHandler), at least one validator keeps power (the generator never disputes the last validator).",
         "level": "exploration",
         "trusted": ["harness chain_test.go / hist_test.go", "models Chain/OracleBlock.lean, Chain/Tally.lean"],
+    },
+    "C04": {
+        "props_module": "LayerModel.Props.C04",
+        "families": [("escrow", 64, 1500, "chain")],
+        "gen": ["facts", "formulas"],
+        "rule": "escrow: chain histories (real app; two reporters with commissions, selectors delegating to one or two validators, tips, cycle-list reports, tip withdrawals) of >= 10 blocks in which selector credits became non-zero; distinct = distinct operation sequences",
+        "level_text": "Theorems (invariants by induction over every operation sequence): the oracle account equals the sum of unpaid tips over tips, round payouts, clean-ups and query creations; the tips escrow covers the selector credits up to 10^-18 loya per credit event over every sequence of reward payments (constrained exactly as C09 proves for DivvyingTips) and withdrawals; no WithdrawTip payout exceeds the escrow balance while fewer than 10^18 credit events have happened. Tied to the code by chain-mode runs of the real application: after every block the oracle balance must equal the sum of Query.Amount, the tips-escrow balance must cover the sum of SelectorTips, the bridge account must be empty.",
+        "level_note": "Trusted: Lean kernel; models Chain/Escrow.lean (abstract ledgers; the link from DivvyingTips to validPay is C09_divvy_sum + C09_allocated_sum_exact); dispute-account cover is checked with C13 (not here). cosmos-sdk bank/staking are real in the harness.",
+        "trusted": ["model Chain/Escrow.lean", "harness chain_test.go / hist_test.go"],
     },
 }
